@@ -7,4 +7,6 @@ import PycsepVerif.Source.C16
 import PycsepVerif.SourceSM.C06
 import PycsepVerif.SourceSM.C12
 import PycsepVerif.SourceSM.C04
+import PycsepVerif.SourceSM.C17
+import PycsepVerif.SourceSM.C01
 -- REGISTER-SRC (one `import PycsepVerif.Source.Cxx` line per property with a source tie, above this line)
